@@ -1,9 +1,11 @@
 package props
 
 import (
+	"context"
 	"fmt"
 	"strings"
 
+	wire "github.com/jeroenrinzema/psql-wire"
 	"verif/engine/explore"
 	"verif/engine/harness"
 	"verif/engine/memnet"
@@ -115,6 +117,53 @@ func c05RunNb(query string, second bool, nb *neighbour) (res explore.Result) {
 	judgeSimpleCycle(&res, q2, rec.Evs[n:], out, "follow-up query")
 	if k := harnessKinds(out); k != "TDCZ" {
 		res.Fail("follow-up", fmt.Sprintf("follow-up query answered with %q", k))
+	}
+	return res
+}
+
+// c05RunWriteFault: exactly one transport write of the query cycle fails (nothing of it is delivered). The statement
+// writes five rows whatever Row returns and reports Written() in its command tag: the counter equals the rows whose
+// Row call returned nil, and those are the DataRows the client received.
+func c05RunWriteFault(k int, ncols int) explore.Result {
+	var res explore.Result
+	res.Outcome = "ok"
+	res.Key = fmt.Sprint("write-fault", k, ncols)
+	accepted := 0
+	var written uint64
+	parse := func(ctx context.Context, q string) (wire.PreparedStatements, error) {
+		cols := wire.Columns{{Name: "a", Oid: 25}, {Name: "b", Oid: 25}}[:ncols]
+		return wire.Prepared(wire.NewStatement(func(ctx context.Context, w wire.DataWriter, p []wire.Parameter) error {
+			accepted = 0
+			for i := 0; i < 5; i++ {
+				if err := w.Row([]any{fmt.Sprint("r", i), "x"}[:ncols]); err == nil {
+					accepted++
+				}
+			}
+			written = w.Written()
+			return w.Complete(fmt.Sprintf("SELECT %d", written))
+		}, wire.WithColumns(cols))), nil
+	}
+	one, err := harness.StartOne(parse)
+	if err != nil {
+		res.Engine = err.Error()
+		return res
+	}
+	defer one.Stop()
+	one.Step(pgproto.Startup("user", "u"))
+	_, writes, _, _, _, _ := one.C.Snapshot()
+	one.C.SetFaults(memnet.Faults{WriteErrOnceAt: writes + k, Timeout: k%2 == 0})
+	out, _ := one.Step(pgproto.Query("q"))
+	ms, perr := pgproto.ParseBackend(out)
+	if perr != nil {
+		res.Fail("reply-grammar", perr.Error())
+		return res
+	}
+	delivered := strings.Count(pgproto.Kinds(ms), "D")
+	if int(written) != accepted {
+		res.Fail("written-counter", fmt.Sprintf("write %d of the cycle failed once: Row returned nil %d times but Written() = %d", k, accepted, written))
+	}
+	if delivered != accepted && strings.Contains(pgproto.Kinds(ms), "Z") {
+		res.Fail("written-counter", fmt.Sprintf("write %d of the cycle failed once: Row returned nil %d times (Written() = %d) but %d DataRows were delivered (reply %q)", k, accepted, written, delivered, pgproto.Kinds(ms)))
 	}
 	return res
 }
@@ -257,6 +306,15 @@ func c05Enumerate(tier string, emit explore.Emit) {
 	for _, n := range c05TagLengths() {
 		add(fmt.Sprintf("1:r,c=@%d", n), 3)
 		add(fmt.Sprintf("0:c=@%d|1:r,c=@%d", n, n+1), 4)
+	}
+	for _, ncols := range []int{1, 2} {
+		for k := 1; k <= 8; k++ {
+			k, ncols := k, ncols
+			emit(explore.Case{Family: "write-fault", Size: 6, Desc: func() any {
+				return map[string]any{"columns": ncols, "rows": 5, "transport_write_of_the_cycle_that_fails_once": k}
+			},
+				Run: func() explore.Result { return c05RunWriteFault(k, ncols) }})
+		}
 	}
 	// every neighbour state x a small set of programs
 	for _, nb := range neighbourStates() {
